@@ -59,6 +59,14 @@ theorem link_address_recorded {env : Env} {cfg : Cfg} {p : Prog} {fuel : Nat} {o
   have s := linkAll_sound h
   exact ⟨s.syms, fun i n hi => placed_at s hi, s.fresh⟩
 
+/-- Exactly once in the image: the runs written by pass 2 start where the source ended (in both passes) and
+follow each other without gap or overlap, one per placed function. -/
+theorem link_regions_consecutive {env : Env} {cfg : Cfg} {p : Prog} {fuel : Nat} {o : Out}
+    (h : linkAll env cfg p fuel = .ok o) :
+    (∀ a b, o.runs[0]? = some (a, b) → a = p.end1 ∧ a = p.end2) ∧
+    ∀ i a b a' b', o.runs[i]? = some (a, b) → o.runs[i + 1]? = some (a', b') → a' = a + BitVec.ofNat 32 b.length :=
+  runs_consecutive (linkAll_sound h)
+
 /-! ## 3. bytes preserved -/
 
 /-- The bytes written for a placed function are those of the object file in every word that carries no call
